@@ -829,6 +829,9 @@ func main() {
 		Property: "C19",
 		Setup:    setup,
 		Run:      run,
+		// the classifier is shared by the runs of a worker process: a finding is
+		// confirmed in a fresh process before it is recorded
+		ChildVerify: true,
 		Info: func() map[string]any {
 			return map[string]any{
 				"real_code":  []string{"v2/tools/identify_license (main, renamed to an importable package), backend, results: re-compiled from the tree under test after source instrumentation", "v2 classifier package: instrumented for yields only", "file system: real files in a temporary directory"},
